@@ -17,4 +17,17 @@ HopsOk(span, durline, alarm) ==
 KillOk(L, W, wallms, jsig, jexit) ==
   IF W < L THEN jsig = 0 /\ jexit = 0                         \* jobs finishing earlier are unaffected
   ELSE jsig = 24 /\ wallms >= L * 1000 /\ wallms <= (L * 1000) + 1500   \* SIGXCPU at the deadline, about a second of jitter
+(* one task of a multi-VTODO execution request (limit L s or 0 = none, job time W s, prep = it can be started): *)
+(* what must happen to it whatever the other tasks of the request are - see ExecSeq.tla for the mechanism    *)
+Expected(t) == IF ~t.prep THEN [kind |-> "notrun", at |-> 0]
+               ELSE IF t.L > 0 /\ t.W > t.L THEN [kind |-> "killed", at |-> t.L]
+               ELSE [kind |-> "finished", at |-> t.W]
+(* the observation o of the real run of that task *)
+ObservedOk(t, o) ==
+  LET x == Expected(t) IN
+  CASE x.kind = "notrun"   -> ~o.started
+    [] x.kind = "killed"   -> o.started /\ ~o.marker /\ o.journal /\ o.jsig = 24
+                              /\ o.jrealms >= x.at * 1000 - 50 /\ o.jrealms <= (x.at * 1000) + 1500
+    [] x.kind = "finished" -> o.started /\ o.marker /\ o.journal /\ o.jsig = 0 /\ o.jexit = 0
+                              /\ o.runms >= x.at * 1000 - 50 /\ o.runms <= (x.at * 1000) + 1500
 =============================================================================
